@@ -186,6 +186,14 @@ def rule_r1(ck, prog, rule='C18.R1'):
                     return False
                 return (lab[2] if pol else not lab[2]) is (cn['op'] == '==')
         return False
+    # ... and always contains one: once the lookup said "missing", every path to the return writes service.name
+    nf_targets = [q for p_ in g.points for (q, lab) in p_.succ if notfound(p_, q, lab)]
+    if nf_targets and writes:
+        leak = g.reachable_from(nf_targets, avoid=writes)
+        okw = g.exit.id not in leak
+        ck.verdict(okw, rule, f, 'service-name-always-present', writes[0].n,
+                   'when service.name is missing the fallback is written on every path' if okw else
+                   'Resource::Create can return without a service.name: on a path behind "service.name is missing" the fallback is not written under that key (e.g. it is stored under another key)')
     ok = bool(writes) and all(g.must_pass_edge(p, notfound) for p in writes)
     ck.verdict(ok, rule, f, 'service-name-fallback-only-when-missing', writes[0].n if writes else None, 'fallback written only when service.name is missing' if ok else
                'the service.name fallback can overwrite a configured service.name (or is never written)')
@@ -578,6 +586,22 @@ def rule_r3(ck, prog, rule='C18.R3'):
                    '%s reads errno after strto* without clearing it first: a stale ERANGE from earlier makes a valid value fall back to the default' % nm)
 
 
+def rule_r8(ck, prog, rule='C18.R8'):
+    """numbers are decimal: every strto* call of the environment readers that takes a base passes the constant 10 (base 0 accepts
+    "0x10" and reads "010" as eight; the documented syntax is digits)"""
+    cnt = 0
+    for nm in ('GetUintEnvironmentVariable', 'GetDurationEnvironmentVariable', 'GetFloatEnvironmentVariable'):
+        for f in prog.functions('sdk::common::' + nm):
+            for n in f.nodes:
+                name = strip_targs(n.get('c', '') or '').rsplit('::', 1)[-1] if n['k'] == 'call' else ''
+                if name in ('strtoul', 'strtoull', 'strtol', 'strtoll', 'strtoumax', 'strtoimax') and len(n.get('args', [])) >= 3:
+                    b = strip_casts(f, n['args'][2]).get('v')
+                    cnt += 1
+                    ck.verdict(b == 10, rule, f, 'decimal-base:%s' % nm, n, 'parsed with base 10' if b == 10 else
+                               '%s parses with base %s: hexadecimal / octal spellings ("0x10", "010") are accepted with another value than their digits say, although the documented syntax is decimal digits' % (nm, b if b is not None else '(not a constant)'))
+    return cnt
+
+
 def rule_r4(ck, prog, rule='C18.R4'):
     f = prog.function('sdk::common::GetTimeoutFromString')
     # (the digit loop may live in a file-local helper of the parser: file-local callees other than the unit conversion are inlined)
@@ -699,12 +723,13 @@ def rule_r2_disabled(ck, prog, rule='C18.R2'):
 
 
 def run(ck, prog):
-    ck.doc('C18.R1', 'Merge orientation/schema/constness; Create chain order; service.name fallback; pair split at the first =', 7)
+    ck.doc('C18.R1', 'Merge orientation/schema/constness; Create chain order; service.name fallback; pair split at the first =; service.name always present', 8)
     ck.doc('C18.R2', 'out-parameter typestate of the environment readers and duration helpers; OTEL_SDK_DISABLED through the boolean reader', 13)
     ck.doc('C18.R3', 'errno cleared before every strto* whose errno is read', 2)
     ck.doc('C18.R4', 'digit accumulation bounded; per-unit overflow guard uses the exact tick ratio', 7)
     ck.doc('C18.R5', 'span / log record / metric batch take the provider\'s resource, before a processor sees them; every returned batch carries it', 5)
     ck.doc('C18.R6', 'boolean spellings: true is stored only behind a whole-string case-insensitive match', 1)
+    ck.doc('C18.R8', 'integer readers parse with base 10', 1)
     ck.doc('C18.R7', 'key=value lists: every token with a separator is stored for every key/value length (region table)', 1)
     with ck.canary('C18.R2'):
         _canary(ck, prog)
@@ -716,6 +741,7 @@ def run(ck, prog):
     rule_r5(ck, prog)
     rule_r6(ck, prog)
     rule_r7(ck, prog)
+    rule_r8(ck, prog)
     return {}
 
 
